@@ -50,8 +50,10 @@ impl<T: Value> ExpertEdge for Edge<T> {
     fn on_change(&self) {
         let mut handler = self.on_change.borrow_mut();
         if let Some(h) = &mut *handler {
-            let v = self.child.node.value_as_ref();
-            h(v.as_ref().unwrap());
+            // the child may not have been computed yet (it just became necessary)
+            if let Some(v) = self.child.node.value_as_ref() {
+                h(&v);
+            }
         }
     }
     fn packed(&self) -> NodeRef {
